@@ -65,7 +65,10 @@ func producers(v ssa.Value, depth int, seen map[ssa.Value]bool, out *[]ssa.Value
 func rulePrivReg(c *Ctx) *RuleResult {
 	r := newResult("R-PRIVREG", "values the compiler must hold while other user expressions or the loop body are evaluated live in private registers: the Table and Index operands of the SetIndex emitted for an indexed assignment target, and the Start, Stop and Step operands of PrepForLoop/AdvForLoop, are registers obtained directly from GetFreeRegister() (the expression is compiled into, or moved to, that fresh register), never the register an expression compiler handed back — which can be a user variable's own register that a later assignment changes")
 	p := c.P
-	type site struct{ fn, strct string; fields []string }
+	type site struct {
+		fn, strct string
+		fields    []string
+	}
 	sites := []site{
 		{"(*assignCompiler).ProcessIndexExpVar", "SetIndex", []string{"Table", "Index"}},
 		{"(*compiler).ProcessForStat", "PrepForLoop", []string{"Start", "Stop", "Step"}},
